@@ -353,7 +353,7 @@ namespace avel {
         }
 
         AVEL_FINL Vector& operator*=(Vector rhs) {
-            content *= decay(rhs);
+            content = std::uint16_t(std::uint32_t(content) * std::uint32_t(decay(rhs)));
             return *this;
         }
 
